@@ -247,6 +247,8 @@ func runC12(c *Ctx) {
 	// the excerpt carries what the commit assigned (edit Lamport time: sort:edit) — every staging/committing method notifies (shared with C11)
 	c.Doc("R11.2", "every exported method of the cache entities that stages or commits operations calls notifyUpdated before it succeeds")
 	checkMutatorsNotify(c, "R11.2")
+	// after a pull the excerpts queried are those of the merged entities (shared with C02/C11)
+	checkCacheMergeFold(c, "R2.6")
 	checkRepairQuery(c)
 	checkMatch(c)
 	checkLexerAutomaton(c)
